@@ -413,3 +413,195 @@ fn c01_bytes2_len3() {
     }
     assert!(s.is_empty());
 }
+
+// ---- Nesting: every container kind used as a nesting step costs exactly one level, on both sides ---------------------
+// Specification (property C01): a value nested at most 32 levels serializes/deserializes, a deeper one is rejected with
+// TooDeeplyNested. Serializer::new / Deserializer::new at depth d put the value itself at level d+1; a container step
+// puts its element at level d+2. So for every d in 0..=31: step(leaf) succeeds iff d + 2 <= 32, else TooDeeplyNested.
+// With the depth_limit_symmetric obligation this gives the limit by induction over the nesting chain, for chains of any
+// shape, instead of sampling a few chains.
+use crate::{DeserializeError, SerializeError};
+
+macro_rules! depth_step_ser {
+    ($name:ident, |$s:ident, $leaf:ident| $body:block) => {
+        #[kani::proof]
+        #[kani::stub(bytes::BytesMut::reserve_inner, no_reserve_inner)]
+        #[kani::unwind(8)]
+        fn $name() {
+            let d: u8 = kani::any();
+            kani::assume(d <= 31);
+            let $leaf: u8 = kani::any();
+            let mut buf = BytesMut::with_capacity(96);
+            let $s = ok!(Serializer::new(&mut buf, d));
+            let r: Result<(), SerializeError> = $body;
+            match r {
+                Ok(()) => {
+                    assert!(d <= 30);
+                }
+                Err(e) => {
+                    assert!(d == 31);
+                    assert!(matches!(e, SerializeError::TooDeeplyNested));
+                }
+            }
+            kani::cover!(d == 30);
+            kani::cover!(d == 31);
+        }
+    };
+}
+
+// obligation: C01.depth_step_ser_some | harness: c01_depth_step_ser_some | kind: complete | bound: none (all outer depths 0..=31) | tier: quick
+depth_step_ser!(c01_depth_step_ser_some, |s, leaf| { s.serialize_some::<tags::U8>(leaf) });
+// obligation: C01.depth_step_ser_enum | harness: c01_depth_step_ser_enum | kind: complete | bound: none (all outer depths 0..=31) | tier: quick
+depth_step_ser!(c01_depth_step_ser_enum, |s, leaf| { s.serialize_enum::<tags::U8>(7u32, leaf) });
+// obligation: C01.depth_step_ser_vec1 | harness: c01_depth_step_ser_vec1 | kind: complete | bound: none (all outer depths 0..=31) | tier: quick
+depth_step_ser!(c01_depth_step_ser_vec1, |s, leaf| {
+    match s.serialize_vec1(1) {
+        Ok(mut v) => match v.serialize::<tags::U8>(leaf) {
+            Ok(_) => v.finish(),
+            Err(e) => Err(e),
+        },
+        Err(e) => Err(e),
+    }
+});
+// obligation: C01.depth_step_ser_vec2 | harness: c01_depth_step_ser_vec2 | kind: complete | bound: none (all outer depths 0..=31) | tier: quick
+depth_step_ser!(c01_depth_step_ser_vec2, |s, leaf| {
+    match s.serialize_vec2() {
+        Ok(mut v) => match v.serialize::<tags::U8>(leaf) {
+            Ok(_) => v.finish(),
+            Err(e) => Err(e),
+        },
+        Err(e) => Err(e),
+    }
+});
+// obligation: C01.depth_step_ser_map1 | harness: c01_depth_step_ser_map1 | kind: complete | bound: none (all outer depths 0..=31) | tier: quick
+depth_step_ser!(c01_depth_step_ser_map1, |s, leaf| {
+    match s.serialize_map1::<tags::U8>(1) {
+        Ok(mut v) => match v.serialize::<tags::U8>(&3u8, leaf) {
+            Ok(_) => v.finish(),
+            Err(e) => Err(e),
+        },
+        Err(e) => Err(e),
+    }
+});
+// obligation: C01.depth_step_ser_map2 | harness: c01_depth_step_ser_map2 | kind: complete | bound: none (all outer depths 0..=31) | tier: quick
+depth_step_ser!(c01_depth_step_ser_map2, |s, leaf| {
+    match s.serialize_map2::<tags::U8>() {
+        Ok(mut v) => match v.serialize::<tags::U8>(&3u8, leaf) {
+            Ok(_) => v.finish(),
+            Err(e) => Err(e),
+        },
+        Err(e) => Err(e),
+    }
+});
+// obligation: C01.depth_step_ser_struct1 | harness: c01_depth_step_ser_struct1 | kind: complete | bound: none (all outer depths 0..=31) | tier: quick
+depth_step_ser!(c01_depth_step_ser_struct1, |s, leaf| {
+    match s.serialize_struct1(1) {
+        Ok(mut v) => match v.serialize::<tags::U8>(5u32, leaf) {
+            Ok(_) => v.finish(),
+            Err(e) => Err(e),
+        },
+        Err(e) => Err(e),
+    }
+});
+// obligation: C01.depth_step_ser_struct2 | harness: c01_depth_step_ser_struct2 | kind: complete | bound: none (all outer depths 0..=31) | tier: quick
+depth_step_ser!(c01_depth_step_ser_struct2, |s, leaf| {
+    match s.serialize_struct2() {
+        Ok(mut v) => match v.serialize::<tags::U8>(5u32, leaf) {
+            Ok(_) => v.finish(),
+            Err(e) => Err(e),
+        },
+        Err(e) => Err(e),
+    }
+});
+
+// Deserializer side: the concrete encoding of step(U8 leaf) fed to a deserializer at outer depth d.
+macro_rules! depth_step_de {
+    ($name:ident, [$($byte:expr),*], |$dz:ident| $body:block) => {
+        #[kani::proof]
+        #[kani::unwind(8)]
+        fn $name() {
+            let d: u8 = kani::any();
+            kani::assume(d <= 31);
+            let data = [$($byte),*];
+            let mut s: &[u8] = &data;
+            let $dz = ok!(Deserializer::new(&mut s, d));
+            let r: Result<u8, DeserializeError> = $body;
+            match r {
+                Ok(x) => {
+                    assert!(d <= 30);
+                    assert!(x == 9);
+                }
+                Err(e) => {
+                    assert!(d == 31);
+                    assert!(matches!(e, DeserializeError::TooDeeplyNested));
+                }
+            }
+            kani::cover!(d == 30);
+            kani::cover!(d == 31);
+        }
+    };
+}
+
+const K_U8: u8 = ValueKind::U8 as u8;
+
+// obligation: C01.depth_step_de_some | harness: c01_depth_step_de_some | kind: complete | bound: none (all outer depths 0..=31) | tier: quick
+depth_step_de!(c01_depth_step_de_some, [ValueKind::Some as u8, K_U8, 9], |dz| { dz.deserialize_some::<tags::U8, u8>() });
+// obligation: C01.depth_step_de_option | harness: c01_depth_step_de_option | kind: complete | bound: none (all outer depths 0..=31) | tier: quick
+depth_step_de!(c01_depth_step_de_option, [ValueKind::Some as u8, K_U8, 9], |dz| {
+    match dz.deserialize_option::<tags::U8, u8>() {
+        Ok(Some(x)) => Ok(x),
+        Ok(None) => Err(DeserializeError::InvalidSerialization),
+        Err(e) => Err(e),
+    }
+});
+// obligation: C01.depth_step_de_enum | harness: c01_depth_step_de_enum | kind: complete | bound: none (all outer depths 0..=31) | tier: quick
+depth_step_de!(c01_depth_step_de_enum, [ValueKind::Enum as u8, 7, K_U8, 9], |dz| {
+    match dz.deserialize_enum() {
+        Ok(e) => e.deserialize::<tags::U8, u8>(),
+        Err(e) => Err(e),
+    }
+});
+// obligation: C01.depth_step_de_vec1 | harness: c01_depth_step_de_vec1 | kind: complete | bound: none (all outer depths 0..=31) | tier: quick
+depth_step_de!(c01_depth_step_de_vec1, [ValueKind::Vec1 as u8, 1, K_U8, 9], |dz| {
+    match dz.deserialize_vec1() {
+        Ok(mut v) => match v.deserialize::<tags::U8, u8>() {
+            Ok(Some(x)) => Ok(x),
+            Ok(None) => Err(DeserializeError::InvalidSerialization),
+            Err(e) => Err(e),
+        },
+        Err(e) => Err(e),
+    }
+});
+// obligation: C01.depth_step_de_vec2 | harness: c01_depth_step_de_vec2 | kind: complete | bound: none (all outer depths 0..=31) | tier: quick
+depth_step_de!(c01_depth_step_de_vec2, [ValueKind::Vec2 as u8, ValueKind::Some as u8, K_U8, 9, ValueKind::None as u8], |dz| {
+    match dz.deserialize_vec2() {
+        Ok(mut v) => match v.deserialize::<tags::U8, u8>() {
+            Ok(Some(x)) => Ok(x),
+            Ok(None) => Err(DeserializeError::InvalidSerialization),
+            Err(e) => Err(e),
+        },
+        Err(e) => Err(e),
+    }
+});
+// obligation: C01.depth_step_de_map1 | harness: c01_depth_step_de_map1 | kind: complete | bound: none (all outer depths 0..=31) | tier: quick
+depth_step_de!(c01_depth_step_de_map1, [ValueKind::U8Map1 as u8, 1, 3, K_U8, 9], |dz| {
+    match dz.deserialize_map1::<tags::U8>() {
+        Ok(mut v) => match v.deserialize_element::<u8, tags::U8, u8>() {
+            Ok(Some((_, x))) => Ok(x),
+            Ok(None) => Err(DeserializeError::InvalidSerialization),
+            Err(e) => Err(e),
+        },
+        Err(e) => Err(e),
+    }
+});
+// obligation: C01.depth_step_de_map2 | harness: c01_depth_step_de_map2 | kind: complete | bound: none (all outer depths 0..=31) | tier: quick
+depth_step_de!(c01_depth_step_de_map2, [ValueKind::U8Map2 as u8, ValueKind::Some as u8, 3, K_U8, 9, ValueKind::None as u8], |dz| {
+    match dz.deserialize_map2::<tags::U8>() {
+        Ok(mut v) => match v.deserialize_element::<u8, tags::U8, u8>() {
+            Ok(Some((_, x))) => Ok(x),
+            Ok(None) => Err(DeserializeError::InvalidSerialization),
+            Err(e) => Err(e),
+        },
+        Err(e) => Err(e),
+    }
+});
